@@ -25,6 +25,7 @@ static void on_alarm(int) {
 void vf_begin(Ctx& ctx) {
   g_lim.maxexp_bool = (int)ctx.optint("maxexp_bool", 29);
   g_lim.maxexp_other = (int)ctx.optint("maxexp_other", 29);
+  g_lim.force_exp_bool = (int)ctx.optint("force_exp_bool", 0);
   g_time_limit = (int)ctx.optint("time_limit", 120);
   vfalloc::g_ceiling = (long long)ctx.optint("heap_mb", 1024) << 20;
   signal(SIGALRM, on_alarm);   // replaces the generic per-case handler of vf.h: same effect, limit re-armed per library call
